@@ -479,7 +479,93 @@ func c13Histories(depth int) []c13Hist {
 	return out
 }
 
+// ---- tenants: several providers in one process given the very same key material ----
+
+// c13Shared: two providers with their own algorithm and canonicaliser are handed the SAME key
+// store object (the same *KeyStore through a setter, or the same X509KeyStore value in a field).
+// A builds, B builds, A builds again: each message must follow the configuration of the provider
+// that built it.
+type c13Shared struct {
+	Shared bool    `json:"tenants_sharing_one_key_store"`
+	Slot   string  `json:"slot"` // enc-setter | sig-setter | enc-field
+	A      c13Case `json:"a"`
+	B      c13Case `json:"b"`
+}
+
+func c13SharedExec(h c13Shared) (keys []string, detail, class string) {
+	h.A.Keys, h.B.Keys = 1, 1 // encryption setter only; replaced below
+	spA, _ := c13SP(h.A)
+	spB, _ := c13SP(h.B)
+	expected := ""
+	switch h.Slot {
+	case "enc-setter":
+		ks := world.SetterKeyStore("KX")
+		spA.SetSPKeyStore(ks)
+		spB.SetSPKeyStore(ks)
+		expected = "KX"
+	case "sig-setter":
+		ks := world.SetterKeyStore("K1")
+		spA.SetSPSigningKeyStore(ks)
+		spB.SetSPSigningKeyStore(ks)
+		expected = "K1"
+		h.A.Keys, h.B.Keys = 9, 9 // encryption setter + signing setter
+	case "enc-field":
+		store := world.TLSKeyStore("KS")
+		spA.SetSPKeyStore(nil)
+		spB.SetSPKeyStore(nil)
+		spA.SPKeyStore, spB.SPKeyStore = store, store
+		expected = "KS"
+		h.A.Keys, h.B.Keys = 0, 0
+	}
+	steps := []struct {
+		who string
+		sp  *saml2.SAMLServiceProvider
+		c   c13Case
+	}{{"A", spA, h.A}, {"B", spB, h.B}, {"A-again", spA, h.A}, {"B-again", spB, h.B}}
+	class = "tenants/verify"
+	for _, st := range steps {
+		k, d, _ := c13ExecOn(st.sp, expected, st.c)
+		detail += fmt.Sprintf(" | %s: %s", st.who, d[:min(len(d), 400)])
+		for _, x := range k {
+			keys = append(keys, strings.Replace(x, "C13/", "C13/providers-sharing-one-key-store/"+st.who+"/", 1))
+		}
+		if len(k) > 0 {
+			class = "DIFFERS"
+			break
+		}
+	}
+	return dedupe(keys), detail, class
+}
+
+func c13SharedCases() []c13Shared {
+	var out []c13Shared
+	algs := []int{0, 1, 2, 4}
+	canons := []int{0, 1, 3}
+	kinds := [][2]string{{"LogoutResponse", "AuthnRequest"}, {"AuthnRequest", "LogoutRequest"}, {"LogoutRequest", "LogoutResponse"}}
+	for _, slot := range []string{"enc-setter", "sig-setter", "enc-field"} {
+		for _, aa := range algs {
+			for _, ab := range algs {
+				for _, ca := range canons {
+					for _, cb := range canons {
+						for _, kd := range kinds {
+							out = append(out, c13Shared{Shared: true, Slot: slot,
+								A: c13Case{Alg: aa, Canon: ca, Kind: kd[0], Str: make([]int, sCount)},
+								B: c13Case{Alg: ab, Canon: cb, Kind: kd[1], Str: make([]int, sCount)}})
+						}
+					}
+				}
+			}
+		}
+	}
+	return out
+}
+
 func c13Replay(raw json.RawMessage) ([]string, string) {
+	var sh c13Shared
+	if err := json.Unmarshal(raw, &sh); err == nil && sh.Shared {
+		k, d, _ := c13SharedExec(sh)
+		return k, d
+	}
 	var h c13Hist
 	if err := json.Unmarshal(raw, &h); err == nil && len(h.Ops) > 0 {
 		k, d, _ := c13HistExec(h)
@@ -498,7 +584,7 @@ func c13Run(r *mc.Run) {
 	if r.Thorough() {
 		bound = 2
 	}
-	r.Rule = "full product key configuration(15: every non-empty subset of {encryption field, encryption setter, signing field, signing setter}, a distinct key per slot) x signature algorithm(6: unset, rsa-sha1/256/384/512, ecdsa-sha256 with a setter-supplied P-256 signer) x canonicaliser(8) x message kind(3) (logout kinds with SignAuthnRequests on and off; field key stores also as certificate chains and as a key store of a custom type), with <=1 (quick) / <=2 (thorough) of 12 configuration strings taken from a 17-value special-character alphabet; oracle = the recipient: re-parse from bytes, goxmldsig verification with exactly the reported certificate, declared algorithms, embedded certificate, placement after Issuer, metadata signing key; plus every operation sequence of <=4 (quick) / <=5 (thorough) steps over {SetSPKeyStore(key|nil), SetSPSigningKeyStore(key1|key2|nil), build of each kind} ending in a build, from two initial field configurations, replayed on a fresh instance: the last message must verify with the certificate the statement's rule picks from the setters in force at that moment (keys replaced after the instance has already signed). non-trivial = a signed document was produced and verified; distinct = distinct case"
+	r.Rule = "full product key configuration(15: every non-empty subset of {encryption field, encryption setter, signing field, signing setter}, a distinct key per slot) x signature algorithm(6: unset, rsa-sha1/256/384/512, ecdsa-sha256 with a setter-supplied P-256 signer) x canonicaliser(8) x message kind(3) (logout kinds with SignAuthnRequests on and off; field key stores also as certificate chains and as a key store of a custom type), with <=1 (quick) / <=2 (thorough) of 12 configuration strings taken from a 17-value special-character alphabet; oracle = the recipient: re-parse from bytes, goxmldsig verification with exactly the reported certificate, declared algorithms, embedded certificate, placement after Issuer, metadata signing key; plus every operation sequence of <=4 (quick) / <=5 (thorough) steps over {SetSPKeyStore(key|nil), SetSPSigningKeyStore(key1|key2|nil), build of each kind} ending in a build, from two initial field configurations, replayed on a fresh instance: the last message must verify with the certificate the statement's rule picks from the setters in force at that moment (keys replaced after the instance has already signed); plus two providers handed the very same key store object (setter *KeyStore for the encryption or signing slot, or one X509KeyStore value in the field), full product (algorithm(4) x canonicaliser(3)) of each x 3 kind pairs x 3 slots, building A, B, A, B: each message follows the configuration of the provider that built it. non-trivial = a signed document was produced and verified; distinct = distinct case"
 	r.Assume("goxmldsig's validator as the recipient's verifier (trusted base)")
 	var cases []c13Case
 	nk := len(c13AllKeys())
@@ -568,6 +654,22 @@ func c13Run(r *mc.Run) {
 		}
 		for _, k := range keys {
 			r.Violation(k, detail[:min(len(detail), 1500)], hists[i])
+		}
+	})
+	shared := c13SharedCases()
+	r.Set("providers_sharing_one_key_store", len(shared))
+	r.State(len(shared))
+	defer r.Par(len(shared), func(i int) {
+		keys, detail, class := c13SharedExec(shared[i])
+		r.Eval(4)
+		r.Transition(4)
+		r.Bucket(class)
+		r.Nontrivial(fmt.Sprintf("%+v", shared[i]))
+		if i%401 == 0 {
+			r.Sample(map[string]interface{}{"tenants": shared[i], "observed": detail[:min(len(detail), 500)]})
+		}
+		for _, k := range keys {
+			r.Violation(k, detail[:min(len(detail), 1500)], shared[i])
 		}
 	})
 	r.Par(len(cases), func(i int) {
